@@ -96,8 +96,8 @@ def showColl (c : Coll) : String :=
     s!"{v.start} {v.«end»} {showSeq v.seq} {String.ofList v.vtype} {showPhase v.phase}"
   " ".intercalate (s!"coll {idS} {String.ofList c.seqName} {c.vars.length}" :: vars)
 
-/-- `repaired = false`: the code as it is; `true`: with the repairs of F-C13a/F-C13b/F-C13c (see Model) -/
-def opsFor (repaired : Bool) : List (String × Op) := [
+/-- the operations on one version of the library text (see `Model.Variants.Ver`) -/
+def opsFor (ver : Ver) : List (String × Op) := [
   ("altseq", do
       match ← pCommon with
       | none => pure unmodelled
@@ -112,7 +112,7 @@ def opsFor (repaired : Bool) : List (String × Op) := [
         pure (showR id (do
           let v ← vs
           let loc ← mkLoc bs st
-          let nl ← v.lift repaired par ref loc
+          let nl ← v.lift ver par ref loc
           match nl with
           | .empty => pure "E"
           | _ => do
@@ -128,7 +128,7 @@ def opsFor (repaired : Bool) : List (String × Op) := [
         pure (showR showShown (do
           let v ← vs
           let loc ← mkLoc bs st
-          incorporateFeature repaired par ref v loc))),
+          incorporateFeature ver par ref v loc))),
   ("incC", do
       let c ← pCommon
       let st ← pStrand; let bs ← pBlocks; let _f0 ← pInt
@@ -139,7 +139,7 @@ def opsFor (repaired : Bool) : List (String × Op) := [
         pure (showR showShown (do
           let v ← vs
           let loc ← mkLoc bs st
-          incorporateCDS repaired par ref v loc))),
+          incorporateCDS ver par ref v loc))),
   ("incT", do
       let c ← pCommon
       let st ← pStrand; let bs ← pBlocks; let cb ← pBlocks; let _f0 ← pInt
@@ -154,7 +154,7 @@ def opsFor (repaired : Bool) : List (String × Op) := [
               let v ← vs
               let loc ← mkLoc bs st
               let cl ← mkLoc cb st
-              let (sh, cd) ← incorporateTranscript repaired par ref v loc (some cl)
+              let (sh, cd) ← incorporateTranscript ver par ref v loc (some cl)
               match cd with
               | some c => pure s!"{showShown sh} | cds {showShown c}"
               | none => pure s!"{showShown sh} | cds none"))
@@ -162,19 +162,21 @@ def opsFor (repaired : Bool) : List (String × Op) := [
             pure (showR id (do
               let v ← vs
               let loc ← mkLoc bs st
-              let (sh, _) ← incorporateTranscript repaired par ref v loc none
+              let (sh, _) ← incorporateTranscript ver par ref v loc none
               pure s!"{showShown sh} | cds none"))),
   ("vcf", do
       let recs ← pList pVcfRec
-      match convertVcf repaired recs with
+      match convertVcf ver recs with
       | none => pure unmodelled
       | some d =>
         pure ("ok " ++ " ".intercalate (d.map fun p =>
           " ".intercalate (s!"seq {String.ofList p.1} {p.2.length}" :: p.2.map showColl))))
 ]
 /-- the operations on the code as it is -/
-def ops : List (String × Op) := opsFor false
-/-- the operations on the repaired code (switch `drivers/C13.lean` to this table once the fixes are in /repo) -/
-def opsRepaired : List (String × Op) := opsFor true
+def ops : List (String × Op) := opsFor .current
+/-- the text before 82ac85b / c293a73 (regression only) -/
+def opsBefore : List (String × Op) := opsFor .before
+/-- `current` + the hypothetical repair of F-C13a (descending order) -/
+def opsDescending : List (String × Op) := opsFor .descending
 
 end BioCantor.Driver.Variants
